@@ -28,6 +28,9 @@ def generate(rng, tier) -> dict:
     bounds = list(np.cumsum(files["nsamps"]))
     ops = []
     for _ in range(rng.choice([1, 1, 1, 2, 3, 4])):
+        if ops and rng.random() < 0.2:
+            st = rng.randint(0, N - 1)
+            ops.append({"op": "read_block", "start": st, "nsamps": rng.randint(1, N - st)})  # another API on the same reader in between
         ops.append(gen_plan(rng, N, bounds))
     faults = []
     if rng.random() < 0.3:
@@ -83,6 +86,10 @@ def fixup(sc):
     f["pad"] = (list(f.get("pad") or []) + [0, 0, 0])[: len(f["nsamps"])]
     N = sum(f["nsamps"])
     for o in sc["ops"]:
+        if o["op"] == "read_block":
+            o["start"] = max(0, min(o["start"], N - 1))
+            o["nsamps"] = max(1, min(o["nsamps"], N - o["start"]))
+            continue
         o["gulp"] = max(1, o["gulp"])
         o["start"] = max(0, min(o["start"], N))
         if o["nsamps"] is not None:
@@ -256,6 +263,21 @@ def execute(sc, ctx) -> None:
     with SimDisk(ctx, sc["faults"]) as sim:
         reader = FilReader(fs.paths)
         for i, op in enumerate(sc["ops"]):
+            if op["op"] == "read_block":
+                sim.begin_op(i, budget=64 * (nfiles + 2))
+                fired0 = sum(ctx.faults.values())
+                try:
+                    blk = np.asarray(reader.read_block(op["start"], op["nsamps"]).data)
+                except Exception as e:  # noqa: BLE001
+                    if sum(ctx.faults.values()) > fired0 or truncated:
+                        continue
+                    raise Violation("C01/read_block-between-plans/raised", repr(e), {"api": "read_block", **op}) from None
+                want = fs.samples[op["start"] : op["start"] + op["nsamps"]].T.astype(np.float32)
+                if not (truncated or sum(ctx.faults.values()) > fired0) and not filgen.same_bits(blk.astype(np.float32), want):
+                    raise Violation("C01/read_block-between-plans/wrong-data", "", {"api": "read_block", **op})
+                ctx.probe("read_block-between-plans")
+                ctx.log("read_block", i, op["start"], op["nsamps"])
+                continue
             nsamps, eff, sreg, eof = regime(op, N)
             s, gulp = op["skipback"], op["gulp"]
             step = max(1, eff - s)
@@ -301,7 +323,7 @@ def execute(sc, ctx) -> None:
                 ctx.probe("partial-last-block-before-EOF")
             if nsamps == 0:
                 ctx.probe("nsamps=0")
-            if i > 0 and sc["ops"][i - 1].get("abandon_at") is not None:
+            if i > 0 and sc["ops"][i - 1].get("abandon_at") is not None and sc["ops"][i - 1]["op"] == "plan":
                 ctx.probe("K3-abandon-then-plan")
             ctx.sig += [sreg, eof, op["consumer"], str(alloc), "multi" if nfiles > 1 else "single"]
 
